@@ -106,6 +106,35 @@ def _only_panics(b, cfg, start):
     return bool(ends) and all(b.blocks[x].term["k"] == "call" and is_panic_call(b.blocks[x].term) for x in ends)
 
 
+def _none_arm_gives_constant(b, tr, get_bb):
+    """In `match X.get() {..}`: the arm taken for None assigns a constant to the result and the Some arm the payload."""
+    from rules.common import cfg_of
+    nxt = b.blocks[b.blocks[get_bb].term["target"]]
+    # find the switch on discriminant(get result)
+    guard = 0
+    while nxt.term["k"] in ("goto", "false_edge") and guard < 4:
+        nxt = b.blocks[nxt.term["target"]]
+        guard += 1
+    if nxt.term["k"] != "switch":
+        return False
+    subj = tr.norm(tr.operand(nxt.term["discr"]))
+    if not (subj[0] == "discr" and strip_wrappers(subj[1])[:2] == ("call", get_bb)):
+        return False
+    arms = {int(v): t for v, t in nxt.term["arms"]}
+    none_t = arms.get(0)
+    if none_t is None:
+        return False
+    # the None arm must not read the payload: no statement under it (before the join) uses downcast Some
+    cfg = cfg_of(b)
+    some_t = arms.get(1, nxt.term["otherwise"])
+    only_none = cfg.reachable_from(none_t) - cfg.reachable_from(some_t) | {none_t}
+    for bb in only_none:
+        for st in b.blocks[bb].stmts:
+            if st["k"] == "assign" and "Some" in str(st["rv"]):
+                return False
+    return True
+
+
 def spawn_default(run, f):
     b = f.body("spawn")
     if not run.require(b is not None, "O9.3", "spawn-present", "fn spawn not found", "found"):
@@ -118,6 +147,7 @@ def spawn_default(run, f):
     cap = strip_wrappers(tr.norm(tr.call_args(calls[0].idx)[1]))
     good = False
     dflt = None
+    cfg_static = configured_static(f)
     if cap[0] == "call" and cap[2].endswith("unwrap_or"):
         a = [tr.norm(x) for x in tr.call_args(cap[1])]
         dflt = a[1]
@@ -126,13 +156,43 @@ def spawn_default(run, f):
             c2 = strip_wrappers(tr.norm(tr.call_args(c1[1])[0]))
             if c2[0] == "call" and c2[2].startswith("std::sync::OnceLock") and c2[2].endswith("::get"):
                 st = _static_arg(b, tr, c2[1])
-                good = st == "CONFIGURED_DEFAULT_MAILBOX_CAPACITY"
+                good = st is not None and st == cfg_static
+    elif cap[0] == "phi" and len(cap[1]) == 2:
+        # the same selection written as a match: `match CONFIGURED.get() { Some(&v) => v, None => DEFAULT }`
+        cfgd = [m for m in cap[1] if strip_wrappers(m)[0] != "int"]
+        cst = [m for m in cap[1] if strip_wrappers(m)[0] == "int"]
+        if len(cfgd) == 1 and len(cst) == 1:
+            v = strip_refs(cfgd[0])
+            if v[0] == "field" and v[1] == 0 and v[2][0] == "downcast" and v[2][1] == "Some":
+                g = strip_wrappers(v[2][2])
+                if g[0] == "call" and g[2].startswith("std::sync::OnceLock") and g[2].endswith("::get") and _none_arm_gives_constant(b, tr, g[1]):
+                    st = _static_arg(b, tr, g[1])
+                    good = st is not None and st == cfg_static
+                    dflt = strip_wrappers(cst[0])
     run.require(good, "O9.3", "spawn-capacity-expression", "spawn passes %s as capacity (expected CONFIGURED.get().copied().unwrap_or(DEFAULT) unchanged)" % show(cap),
                 "capacity = CONFIGURED.get().copied().unwrap_or(DEFAULT)", loc=loc_of(b, calls[0]))
     run.require(dflt == ("int", DEFAULT_CAPACITY), "O9.3", "default-is-32", "the built-in default capacity evaluates to %s (documented: 32)" % (show(dflt) if dflt else None),
                 "DEFAULT_MAILBOX_CAPACITY == 32")
     a0 = tr.norm(tr.call_args(calls[0].idx)[0])
     run.require(a0 == ("param", 1), "O9.3", "spawn-args-forwarded", "spawn does not forward its args", "args forwarded")
+
+
+def configured_static(f):
+    """The process-wide OnceLock holding the configured default: the static that set_default_mailbox_capacity `set`s."""
+    from rules.c13 import _static_of
+    body = f.body("set_default_mailbox_capacity")
+    if body is None:
+        return None
+    tr = tracer_of(body)
+    out = set()
+    for blk in live_calls(body):
+        fn = fn_of(blk)
+        if fn.get("name") == "set" and (fn.get("def") or "").startswith("std::sync::OnceLock") and blk.term["args"]:
+            pl = blk.term["args"][0].get("move") or blk.term["args"][0].get("copy")
+            st = _static_of(body, tr, pl) if pl else None
+            if st:
+                out.add(st)
+    return out.pop() if len(out) == 1 else None
 
 
 def _static_arg(b, tr, call_bb):
@@ -184,12 +244,14 @@ def set_default(run, f):
     run.sample({"rule": "O9.4", "config": run.cur_config, "table": tables})
     # the OnceLock is written nowhere else
     from rules.c13 import _static_of
+    cfgs = configured_static(f)
+    run.require(cfgs is not None, "O9.4", "configured-static", "cannot identify the OnceLock static that set_default_mailbox_capacity writes", "static %s" % cfgs)
     wr = []
     for b, blk in all_calls(f):
         tr = tracer_of(b)
         for a in blk.term["args"][:1]:
             pl = a.get("move") or a.get("copy")
-            if pl is not None and _static_of(b, tr, pl) == "CONFIGURED_DEFAULT_MAILBOX_CAPACITY":
+            if pl is not None and cfgs is not None and _static_of(b, tr, pl) == cfgs:
                 wr.append((fn_of(blk).get("name"), b.name))
     others = [w for w in wr if w[0] not in ("get",) and not (w[0] == "set" and w[1] == d)]
     run.require(not others and ("set", d) in wr, "O9.4", "oncelock-writers", "the capacity OnceLock is also used by %s" % others, "OnceLock written only by set_default_mailbox_capacity (uses: %s)" % sorted(set(wr)))
